@@ -22,21 +22,24 @@ spec fn h_basic(h: BuildHelper) -> bool {
 // list lemmas are free of ring arithmetic
 spec fn l_vac(f: spec_fn(int) -> ListItem, lo: int, hi: int, i: int) -> bool { lo <= i < hi && !f(i).used_index }
 
+#[verifier::opaque]
 spec fn list_ok(f: spec_fn(int) -> ListItem, head: Option<u32>, lo: int, hi: int) -> bool {
+    // (a,b) head is the least vacant index
     &&& (match head {
             None => forall|j: int| !l_vac(f, lo, hi, j),
-            Some(hd) => l_vac(f, lo, hi, hd as int) && forall|j: int| lo <= j < hd ==> !l_vac(f, lo, hi, j),
+            Some(hd) => l_vac(f, lo, hi, hd as int) && forall|j: int| #[trigger] l_vac(f, lo, hi, j) ==> j >= hd,
         })
+    // (c) next/prev are mutually inverse on the vacant indices
     &&& forall|i: int| #[trigger] l_vac(f, lo, hi, i) ==> {
-            let n = f(i).next as int;
-            let p = f(i).prev as int;
-            &&& l_vac(f, lo, hi, n)
-            &&& f(n).prev == i
-            &&& l_vac(f, lo, hi, p)
-            &&& f(p).next == i
-            &&& (n > i ==> forall|j: int| i < j < n ==> !l_vac(f, lo, hi, j))
-            &&& (n <= i ==> (forall|j: int| i < j < hi ==> !l_vac(f, lo, hi, j)) && (forall|j: int| lo <= j < n ==> !l_vac(f, lo, hi, j)))
+            &&& l_vac(f, lo, hi, f(i).next as int)
+            &&& f(f(i).next as int).prev == i
+            &&& l_vac(f, lo, hi, f(i).prev as int)
+            &&& f(f(i).prev as int).next == i
         }
+    // (e) next(i) is the least vacant index above i, if there is one
+    &&& forall|i: int, j: int| #[trigger] l_vac(f, lo, hi, i) && #[trigger] l_vac(f, lo, hi, j) && i < j ==> i < f(i).next <= j
+    // (f) otherwise the list wraps around to the head
+    &&& forall|i: int| #[trigger] l_vac(f, lo, hi, i) && f(i).next <= i ==> head == Some(f(i).next)
 }
 
 spec fn h_cells(h: BuildHelper) -> spec_fn(int) -> ListItem { |i: int| h_it(h, i) }
@@ -53,6 +56,14 @@ spec fn cell_after_remove(c: ListItem, j: int, idx: int, p: int, n: int) -> List
     }
 }
 
+proof fn lemma_neighbours(f: spec_fn(int) -> ListItem, head: Option<u32>, lo: int, hi: int, idx: int)
+    requires list_ok(f, head, lo, hi), l_vac(f, lo, hi, idx),
+    ensures l_vac(f, lo, hi, f(idx).next as int), l_vac(f, lo, hi, f(idx).prev as int), head.is_some(), head.unwrap() <= idx,
+        f(idx).next <= idx ==> head == Some(f(idx).next),
+{
+    reveal(list_ok);
+}
+
 proof fn lemma_remove(f0: spec_fn(int) -> ListItem, f3: spec_fn(int) -> ListItem, head0: Option<u32>, head3: Option<u32>,
                       lo: int, hi: int, idx: int, p: int, n: int)
     requires
@@ -62,42 +73,57 @@ proof fn lemma_remove(f0: spec_fn(int) -> ListItem, f3: spec_fn(int) -> ListItem
         0 <= lo, hi <= u32::MAX,
     ensures
         list_ok(f3, head3, lo, hi),
+        match head3 { None => true, Some(x) => head0.is_some() && x >= head0.unwrap() && (head0.unwrap() == idx ==> x > idx) },
 {
+    reveal(list_ok);
     assert(l_vac(f0, lo, hi, n) && l_vac(f0, lo, hi, p));
     assert forall|j: int| l_vac(f3, lo, hi, j) == (l_vac(f0, lo, hi, j) && j != idx) by { if lo <= j < hi { assert(f3(j) == cell_after_remove(f0(j), j, idx, p, n)); } }
+    assert(head0.is_some());
+    let h0 = head0.unwrap() as int;
     if p == idx {
         assert(n == idx);
-        assert forall|j: int| !l_vac(f3, lo, hi, j) by { if l_vac(f0, lo, hi, j) && j != idx { assert(l_vac(f0, lo, hi, idx)); } }
-        assert(head0 == Some(idx as u32)) by { if head0.is_none() { assert(!l_vac(f0, lo, hi, idx)); } }
-    } else {
-        assert(n != idx);
-        assert forall|i: int| #[trigger] l_vac(f3, lo, hi, i) implies ({
-            let nn = f3(i).next as int;
-            let pp = f3(i).prev as int;
-            &&& l_vac(f3, lo, hi, nn)
-            &&& f3(nn).prev == i
-            &&& l_vac(f3, lo, hi, pp)
-            &&& f3(pp).next == i
-            &&& (nn > i ==> forall|j: int| i < j < nn ==> !l_vac(f3, lo, hi, j))
-            &&& (nn <= i ==> (forall|j: int| i < j < hi ==> !l_vac(f3, lo, hi, j)) && (forall|j: int| lo <= j < nn ==> !l_vac(f3, lo, hi, j)))
-        }) by {
-            assert(l_vac(f0, lo, hi, i) && i != idx);
-            assert(f3(i) == cell_after_remove(f0(i), i, idx, p, n));
-            let n0 = f0(i).next as int;
-            let p0 = f0(i).prev as int;
-            assert(l_vac(f0, lo, hi, n0) && l_vac(f0, lo, hi, p0));
-            assert(f3(n0) == cell_after_remove(f0(n0), n0, idx, p, n));
-            assert(f3(p0) == cell_after_remove(f0(p0), p0, idx, p, n));
-            assert(f3(n) == cell_after_remove(f0(n), n, idx, p, n));
-            assert(f3(p) == cell_after_remove(f0(p), p, idx, p, n));
-            assert(l_vac(f0, lo, hi, idx));
+        assert forall|j: int| !l_vac(f3, lo, hi, j) by {
+            if l_vac(f0, lo, hi, j) && j != idx {
+                if j > idx { assert(idx < f0(idx).next <= j); }
+                else { assert(j < f0(j).next <= idx); let m = f0(j).next as int; assert(l_vac(f0, lo, hi, m)); assert(f0(m).prev == j);
+                       if m != idx { assert(m < f0(m).next <= idx); } }
+            }
         }
-        match head0 {
-            None => { assert(!l_vac(f0, lo, hi, idx)); }
-            Some(hd) => {
-                if hd as int == idx {
-                    // new head n is the least remaining vacant index
-                    assert forall|j: int| lo <= j < n implies !l_vac(f3, lo, hi, j) by { }
+    } else {
+        assert(n != idx) by { if n == idx { assert(f0(n).prev == idx); } }
+        // pointers of the surviving cells
+        assert forall|i: int| l_vac(f3, lo, hi, i) implies f3(i).next == (if i == p { n as u32 } else { f0(i).next }) && f3(i).prev == (if i == n { p as u32 } else { f0(i).prev }) by {
+            assert(f3(i) == cell_after_remove(f0(i), i, idx, p, n));
+        }
+        // no surviving cell other than p points to idx with next; none other than n with prev
+        assert forall|i: int| l_vac(f3, lo, hi, i) && i != p implies f0(i).next != idx by { if f0(i).next == idx { assert(f0(f0(i).next as int).prev == i); } }
+        assert forall|i: int| l_vac(f3, lo, hi, i) && i != n implies f0(i).prev != idx by { if f0(i).prev == idx { assert(f0(f0(i).prev as int).next == i); } }
+        // (c)
+        assert forall|i: int| #[trigger] l_vac(f3, lo, hi, i) implies
+            l_vac(f3, lo, hi, f3(i).next as int) && f3(f3(i).next as int).prev == i && l_vac(f3, lo, hi, f3(i).prev as int) && f3(f3(i).prev as int).next == i by {
+            let nn = f3(i).next as int; let pp = f3(i).prev as int;
+            assert(l_vac(f0, lo, hi, i));
+            if i == p { assert(nn == n); } else { assert(nn == f0(i).next && nn != idx); assert(l_vac(f0, lo, hi, nn)); assert(f0(nn).prev == i); assert(nn != n) by { if nn == n { assert(f0(n).prev == idx); } } }
+            if i == n { assert(pp == p); } else { assert(pp == f0(i).prev && pp != idx); assert(l_vac(f0, lo, hi, pp)); assert(f0(pp).next == i); assert(pp != p) by { if pp == p { assert(f0(p).next == idx); } } }
+            assert(l_vac(f3, lo, hi, nn)); assert(l_vac(f3, lo, hi, pp));
+        }
+        // (e)
+        assert forall|i: int, j: int| #[trigger] l_vac(f3, lo, hi, i) && #[trigger] l_vac(f3, lo, hi, j) && i < j implies i < f3(i).next <= j by {
+            assert(l_vac(f0, lo, hi, i) && l_vac(f0, lo, hi, j));
+            assert(i < f0(i).next <= j);
+            if i == p { assert(f0(p).next == idx); assert(idx < j); assert(idx < f0(idx).next <= j); }
+        }
+        // (f) and the head
+        if h0 == idx {
+            assert forall|j: int| #[trigger] l_vac(f3, lo, hi, j) implies j >= n by { assert(j >= idx); assert(idx < f0(idx).next <= j); }
+            assert forall|i: int| #[trigger] l_vac(f3, lo, hi, i) && f3(i).next <= i implies head3 == Some(f3(i).next) by {
+                if i != p { assert(head0 == Some(f0(i).next)); }
+            }
+        } else {
+            assert(l_vac(f3, lo, hi, h0));
+            assert forall|i: int| #[trigger] l_vac(f3, lo, hi, i) && f3(i).next <= i implies head3 == Some(f3(i).next) by {
+                if i == p {
+                    if idx > p { assert(f0(idx).next <= idx); } else { assert(f0(p).next <= p); assert(head0 == Some(idx as u32)); }
                 }
             }
         }
@@ -151,7 +177,7 @@ spec fn h_same_params(a: BuildHelper, b: BuildHelper) -> bool {
 // writing one ring cell changes exactly one element of the window
 proof fn lemma_update_frame(h: BuildHelper, h2: BuildHelper, lo: int, hi: int, i: int, v: ListItem)
     requires h_cap(h) > 0, 0 <= lo <= i < hi, hi - lo <= h_cap(h),
-        h2.items@ == h.items@.update(i % h_cap(h), v),
+        h2.items@ =~= h.items@.update(i % h_cap(h), v),
     ensures h_it(h2, i) == v,
         forall|j: int| lo <= j < hi && j != i ==> #[trigger] h_it(h2, j) == h_it(h, j),
 {
